@@ -6,6 +6,6 @@ cd /verif
 export GOFLAGS=-mod=mod GOPROXY=off GOSUMDB=off GOTOOLCHAIN=local
 mkdir -p .work/bin .work/logs evidence replays
 ( cd harness && go build -o ../.work/bin/vcheck ./cmd/vcheck )
-( cd harness && go build -tags verif -o ../.work/bin/vchild ./cmd/vchild )
-( cd harness && go build -tags verif -race -o ../.work/bin/vchild-race ./cmd/vchild )
+( cd harness && CGO_ENABLED=0 go build -tags verif -o ../.work/bin/vchild ./cmd/vchild )
+( cd harness && CGO_ENABLED=1 go build -tags verif -race -o ../.work/bin/vchild-race ./cmd/vchild )
 echo setup ok
